@@ -290,6 +290,10 @@ func parseLiteral(token lex.Token) (e any, err error) {
 	// rendered as a sql number or serialized to json.
 	fval, err := strconv.ParseFloat(token.Val, 64)
 	if err == nil && !math.IsNaN(fval) && !math.IsInf(fval, 0) {
+		// normalize negative zero (-0.0), it does not survive a json round trip
+		if fval == 0 {
+			fval = 0
+		}
 		return expr.Lit(fval), nil
 	}
 
